@@ -300,15 +300,16 @@ func ReadFromSTL(i io.Reader, opts STLOptions) (o *Subtitles, err error) {
 func readNBytes(i io.Reader, c int) (o []byte, err error) {
 	o = make([]byte, c)
 	var n int
-	if n, err = i.Read(o); err != nil || n != len(o) {
-		if err != nil {
-			if err == io.EOF {
-				return
-			}
-			err = fmt.Errorf("astisub: reading %d bytes failed: %w", c, err)
+	// A reader is allowed to return less bytes than requested, or its last bytes together with io.EOF
+	if n, err = io.ReadFull(i, o); err != nil {
+		if err == io.EOF {
 			return
 		}
-		err = fmt.Errorf("astisub: read %d bytes, should have read %d", n, c)
+		if err == io.ErrUnexpectedEOF {
+			err = fmt.Errorf("astisub: read %d bytes, should have read %d", n, c)
+			return
+		}
+		err = fmt.Errorf("astisub: reading %d bytes failed: %w", c, err)
 		return
 	}
 	return
